@@ -1,7 +1,8 @@
 From Coq Require Import ExtrOcamlBasic.
-From MV Require Import Gen.Consts Gen.ConstsDtls Gen.ConstsWire Dtls.DtlsModel Wire.WireModel.
+From MV Require Import Gen.Consts Gen.ConstsDtls Gen.ConstsWire Dtls.DtlsModel Wire.WireModel Wire.PbufModel.
 Extraction Language OCaml.
 Cd "../ocaml/gen".
 Extraction "m_c08.ml" decode12 hdr13 hs_record_tls hs13_loop hs_record_dtls received_data processed_data cbc_mac_layout
-  all_fixed as_found frag_none c_TLS_1_3_MAX_PLAINTEXT_FRAGMENT_LEN c_DTLS_RETRANSMIT Nat.add.
+  parse_tls_vec pb_from pb_can_read pb_remaining pb_octet pb_be16 pb_be32 pb_try_octets pb_try_forward pb_rec_hdr pb_hs_hdr
+  pb_tls_vector pb_copy_n all_fixed as_found frag_none c_TLS_1_3_MAX_PLAINTEXT_FRAGMENT_LEN c_DTLS_RETRANSMIT Nat.add.
 Cd "../../coq".
